@@ -918,7 +918,11 @@ fn gen_c10(rng: &mut Rng, ctx: &mut Ctx, rep: &mut Report, emit: Emit) {
                     let old = match rng.below(4) { 0 => format!("{}/", tail), 1 => format!("{}/", node), 2 => "/".to_string(), _ => tail };
                     e = EndpointID::Dtn(1, dtn_address(format!("//{}/{}", node, old).as_bytes()).unwrap());
                 }
-                let svc = match rng.below(6) { 0 => format!(" {} ", rng.below(100)), 1 => format!("\u{2003}{}\u{a0}", rng.below(100)), 2 => nums(rng), 3 => String::new(), _ => gen_name(rng, true, true) };
+                // an empty node name (the parser accepts "dtn:///inbox"), and new services that begin or end with the
+                // separators the constructors look for ('/', "//")
+                if rng.chance(1, 6) { e = EndpointID::Dtn(1, dtn_address(format!("///{}", if rng.chance(1, 3) { String::new() } else { gen_name(rng, true, false) }).as_bytes()).unwrap()); }
+                let svc = match rng.below(9) { 0 => format!(" {} ", rng.below(100)), 1 => format!("\u{2003}{}\u{a0}", rng.below(100)), 2 => nums(rng), 3 => String::new(),
+                    4 => format!("/{}", gen_name(rng, true, false)), 5 => format!("//{}", gen_name(rng, true, false)), 6 => (*rng.pick(&["/", "//", "x/", "/x/", "x//y"])).to_string(), _ => gen_name(rng, true, true) };
                 emit(ctx, rep, format!("eid.newep {} {}", show_eid(&e), hex(svc.as_bytes())));
                 if rng.chance(1, 3) { emit(ctx, rep, format!("eid.withdtn {}", hex(gen_name(rng, true, true).as_bytes()))); }
                 if rng.chance(1, 3) { emit(ctx, rep, format!("eid.withipn {} {}", rng.below(3), rng.u64b())); }
@@ -929,7 +933,8 @@ fn gen_c10(rng: &mut Rng, ctx: &mut Ctx, rep: &mut Report, emit: Emit) {
 
 fn gen_op(rng: &mut Rng, kind: u64) -> String {
     match kind {
-        0 => { let c = gen_block(rng, true); let mut c2 = c.clone(); c2.block_number = *rng.pick(&[0u64, 1, 2, u64::MAX, 7, 1 << 63]); c2.crc = bp7::crc::CrcValue::CrcNo; format!("add {}", show_canon(&c2)) }
+        0 => { let c = gen_block(rng, true); let mut c2 = c.clone(); c2.block_number = *rng.pick(&[0u64, 1, 2, u64::MAX, 7, 1 << 63]); // the added block may carry its own CRC type (value not yet computed), whatever the bundle's other blocks have
+            c2.crc = match rng.below(4) { 0 => bp7::crc::CrcValue::Crc16Empty, 1 => bp7::crc::CrcValue::Crc32Empty, _ => bp7::crc::CrcValue::CrcNo }; format!("add {}", show_canon(&c2)) }
         1 => format!("setpayload {}", hex(&gen_payload(rng))),
         2 => format!("setpayloadblock {} {} {}", match rng.below(6) { 0 => 0, 1 => u64::MAX, 2 => 2 + rng.below(4), 3 => rng.u64b(), _ => 1 }, *rng.pick(&[0u8, 1, 4]), hex(&gen_payload(rng))),
         3 => format!("setcrc {}", rng.below(3)),
